@@ -221,6 +221,21 @@ func genC02(c *Ctx) error {
 	for _, h := range corpus {
 		c02RunDirect(c, h, "direct_corpus")
 	}
+	// many requests of one sender inside one window (no bound on how many the window remembers), then
+	// replays of the oldest, of middle ones and of the newest
+	for _, cnt := range []int{40, 70, 130, 300} {
+		for _, step := range []uint64{1, 7, uint64(c02TTL-1) / uint64(cnt)} {
+			if step == 0 {
+				step = 1
+			}
+			var h []uint64
+			for k := 0; k < cnt; k++ {
+				h = append(h, B+uint64(k)*step)
+			}
+			h = append(h, B, B+step, B+uint64(cnt/2)*step, B+uint64(cnt-1)*step, B+5*step, B+uint64(cnt)*step, B+2*step)
+			c02RunDirect(c, h, "direct_burst")
+		}
+	}
 	n := c.N(800, 20000)
 	for i := 0; i < n; i++ {
 		ln := 10 + c.Rng.Intn(31)
